@@ -71,7 +71,7 @@ def run(ck):
     # 2. hypothesis W18 from the strict cfg, reproduced on the real engine
     h = ck.run_tlc(["engine"], "ParEngine", "ParEngine_strict.cfg", workers=4, timeout=900)
     ck.note("strict phase rule on the model: %s" % ("holds" if h.ok else "violated (hypothesis W18)"))
-    run_traces(ck, "w18-scenario", "ParTrace_strict.cfg", dict(scenario="w18", engine="parallel", procs=4, gated=True, policy="lowkey"),
+    run_traces(ck, "w18-scenario", "ParTrace_strict.cfg", dict(scenario="w18", engine="parallel", procs=4, gated=True, policy="lowkey", min_first=2),
                key_extra={"class": "primary_scheduled_by_same_round_secondary"})
     # 3. gated schedules on TLC-enumerated + random programs
     given = sample_programs(ck, 120 if q else 1000)
